@@ -27,7 +27,9 @@ HEADER_U = "From Dasp Require Import Frame.FrameRunU.\nRequire Import Uint63."
 CHECK_U = "checku"
 OPCODE = {"sadd": 1, "smul": 2, "ssig": 3, "sflt": 4, "seq": 5, "map": 6, "zip": 7, "fromfn": 8, "fromsamples": 9,
           "channels": 10, "channel": 11, "offset": 12, "scale": 13, "addf": 14, "mulf": 15, "tosigned": 16, "tofloat": 17,
-          "equil": 18, "mapba": 19, "mapab": 20, "addfa": 21, "iter": 22}
+          "equil": 18, "mapba": 19, "mapab": 20, "addfa": 21, "iter": 22,
+          # round 3 (whole Frame / Sample surface): ssigf / sfltf are the from_sample spelling of ssig / sflt (same model op)
+          "ssigf": 3, "sfltf": 4, "sid": 23, "nch": 24, "chmut": 25, "chun": 26, "chunmut": 27, "chw": 28}
 
 NAMES = ["i8", "i16", "I24", "i32", "I48", "i64", "u8", "u16", "U24", "u32", "U48", "u64", "f32", "f64"]
 CODE = {n: i for i, n in enumerate(NAMES)}
@@ -277,6 +279,12 @@ COQ_OP = {
     "mapba": lambda a: f"ZMapBA {zl(a[0])} {zl(a[1])}", "mapab": lambda a: f"ZMapAB {zl(a[0])} {zl(a[1])}",
     "addfa": lambda a: f"ZAddFA {zl(a[0])} {zl(a[1])}",
     "iter": lambda a: f"ZIter {zt(a[0][0])} {zl(a[1])} {zl(a[2])}",
+    "ssigf": lambda a: f"ZSSigned {zt(a[0][0])}", "sfltf": lambda a: f"ZSFloat {zt(a[0][0])}",
+    "sid": lambda a: "ZSIdentity", "nch": lambda a: "ZNumChannels",
+    "chmut": lambda a: f"ZChannelMut {zl(a[0])} {zt(a[1][0])} {zt(a[2][0])}",
+    "chun": lambda a: f"ZChannelUnchecked {zl(a[0])} {zt(a[1][0])}",
+    "chunmut": lambda a: f"ZChannelUncheckedMut {zl(a[0])} {zt(a[1][0])} {zt(a[2][0])}",
+    "chw": lambda a: f"ZChannelsMutWrite {zl(a[0])} {zl(a[1])} {zt(a[2][0])}",
 }
 
 
@@ -292,13 +300,13 @@ def build(item, ops=None):
 
 
 def sample_ops(r, n, count):
-    ops = [["seq", []]]
+    ops = [["seq", []], ["sid", []]]
     sg, fl = SIGNED_OF[n], float_of(n)
     lo, hi = rng_of(n) if not is_float(n) else (0, 0)
     fixed = [lo, lo + 1, hi - 1, hi, half(n), half(n) + 1, half(n) - 1] if not is_float(n) else [fbits(n, x) for x in FSPECIAL]
     one, zero = fbits(fl, 1.0), fbits(fl, 0.0)
     for v in fixed:
-        ops += [["sadd", [v, 0]], ["smul", [v, zero]], ["smul", [v, one]], ["ssig", [v]], ["sflt", [v]]]
+        ops += [["sadd", [v, 0]], ["smul", [v, zero]], ["smul", [v, one]], ["ssig", [v]], ["sflt", [v]], ["ssigf", [v]], ["sfltf", [v]]]
     if is_wide(n):
         ops += [["smul", [v, one]] for v in wide_one_values(r, n)]
     for _ in range(count):
@@ -309,9 +317,9 @@ def sample_ops(r, n, count):
         elif k < 8:
             ops.append(["smul", [v, r.choice([one, zero, gain(r, n), gain(r, n)])]])
         elif k == 8:
-            ops.append(["ssig", [v]])
+            ops.append([r.choice(["ssig", "ssigf"]), [v]])
         else:
-            ops.append(["sflt", [v]])
+            ops.append([r.choice(["sflt", "sfltf"]), [v]])
     return ops
 
 
@@ -319,11 +327,12 @@ def iter_scripts(r, N, kind):
     """scripts (flat triples code a b) on ONE iterator: structured ones that apply nth / skip / step_by / count /
     last / len to a PARTLY CONSUMED (and to an exhausted) iterator, plus random ones"""
     back = kind != 0
+    cl = [9, 0, 0] if kind != 2 else []    # clone the iterator, next() and len() on the clone (ChannelsMut is not Clone)
     k1, k2 = r.below(N + 1), r.below(N + 2)
     sc = [
-        [0, 0, 0, 0, 0, 0, 1, 0, 0, 6, 0, 0, 1, 0, 0],                       # next, next, nth(0), len, nth(0)
-        [0, 0, 0, 2, k1 % 3, 0, 6, 0, 0, 3, 1 + k2 % 3, N + 1, 6, 0, 0],     # next, skip(k).next(), len, step_by, len
-        [1, k1, 0, 1, 0, 0, 2, 0, 0, 4, 0, 0, 1, 0, 0, 0, 0, 0, 6, 0, 0],    # nth(k), nth(0), skip(0).next(), count, nth(0), next, len
+        [0, 0, 0, 0, 0, 0] + cl + [1, 0, 0, 6, 0, 0, 1, 0, 0],               # next, next, clone, nth(0), len, nth(0)
+        [0, 0, 0, 2, k1 % 3, 0, 6, 0, 0, 3, 1 + k2 % 3, N + 1] + cl + [6, 0, 0],     # next, skip(k).next(), len, step_by, clone, len
+        cl + [1, k1, 0, 1, 0, 0, 2, 0, 0, 4, 0, 0, 1, 0, 0, 0, 0, 0] + cl + [6, 0, 0],    # clone (fresh), nth(k), nth(0), skip(0).next(), count, nth(0), next, clone (exhausted), len
         [0, 0, 0, 3, 2, max(1, N // 2), 5, 0, 0, 1, 0, 0],                   # next, step_by(2).take, last, nth(0) on exhausted
     ]
     if back:
@@ -331,7 +340,7 @@ def iter_scripts(r, N, kind):
     for _ in range(2):
         steps = []
         for _ in range(r.range(3, 7)):
-            c = r.choice([0, 0, 1, 1, 2, 2, 3, 4, 5, 6, 6] + ([7, 7, 8] if back else []))
+            c = r.choice([0, 0, 1, 1, 2, 2, 3, 4, 5, 6, 6] + ([7, 7, 8] if back else []) + ([9, 9] if kind != 2 else []))
             a = r.range(1, 4) if c == 3 else r.below(N + 2) if c in (1, 2) else r.below(N + 1) if c == 8 else 0
             b = r.below(N + 2) if c == 3 else 0
             steps += [c, a, b]
@@ -363,7 +372,17 @@ def frame_ops(r, n, N, bare, full_short):
         ops.append(["scale", fr, [fbits(fl, r.choice([1.0, 0.0]))]])
     ops.append(["addf", fr, other_s])
     ops.append(["mulf", fr, [gain(r, n) for _ in range(N)]])
-    ops += [["tosigned", fr], ["tofloat", fr], ["equil"]]
+    ops += [["tosigned", fr], ["tofloat", fr], ["equil"], ["nch"]]
+    # the mutable / unchecked accessors: writes through channel_mut (in and out of range), channel_unchecked(_mut) inside
+    # the bounds, writes through channels_mut() from both ends with fewer, as many and more new values than channels
+    for i in sorted({N - 1, N, r.below(N), N + 1 + r.below(40)}):
+        ops.append(["chmut", fr, [i], [val(r, n)]])
+    for i in sorted({0, N - 1, r.below(N)}):
+        ops.append(["chun", fr, [i]])
+    for i in sorted({N - 1, r.below(N)}):
+        ops.append(["chunmut", fr, [i], [val(r, n)]])
+    for k, dr in ((r.below(N + 1), 0), (max(0, N - 1 - r.below(2)), 1), (N + r.below(3), r.below(2))):
+        ops.append(["chw", fr, [val(r, n) for _ in range(k)], [dr]])
     if bare:
         ops += [["mapba", fr, outs], ["mapab", fr, outs], ["addfa", fr, other_s]]
         # a mono closure that is handed too few outputs panics inside from_fn(0): index panic observed and modelled
@@ -416,10 +435,20 @@ def nontrivial_ops(it, obs_parts):
             # a position-dependent step (nth / skip / step_by / count / last / len / next_back) applied after the
             # iterator has already been advanced by an earlier step of the same script
             sc = o[3]
-            if len(sc) > 3 and any(sc[j] != 0 for j in range(3, len(sc), 3)):
+            if len(sc) > 3 and any(sc[j] != 0 for j in range(3, len(sc), 3)):    # includes a clone (9) of an advanced iterator
                 out.append(i)
         elif name == "fromfn":
             if N >= 2 and len(set(o[1])) > 1:
+                out.append(i)
+        elif name in ("chmut", "chunmut"):
+            # a write that lands on a channel other than the first of a frame with distinct channels, or is refused
+            if (N >= 2 and o[2][0] > 0 and len(set(o[1])) > 1) or (name == "chmut" and o[2][0] >= N):
+                out.append(i)
+        elif name == "chun":
+            if N >= 2 and o[2][0] > 0 and len(set(o[1])) > 1:
+                out.append(i)
+        elif name == "chw":
+            if N >= 2 and 0 < len(o[2]) < N:
                 out.append(i)
     return out
 
@@ -583,6 +612,13 @@ def main(rep, tier, seed):
                     key = "iter:" + ("channels" if op[1][0] == 0 else "channels_ref" if op[1][0] == 1 else "channels_mut")
                     h[key] = h.get(key, 0) + 1
                     h["iter_steps"] = h.get("iter_steps", 0) + len(op[3]) // 3
+                    h["iter_clone_steps"] = h.get("iter_clone_steps", 0) + sum(1 for j in range(0, len(op[3]), 3) if op[3][j] == 9)
+                if op[0] == "chmut":
+                    key = "chmut:" + ("in-range" if op[2][0] < it["n"] else "refused")
+                    h[key] = h.get(key, 0) + 1
+                if op[0] == "chw":
+                    key = "chw:" + ("front" if op[3][0] == 0 else "back") + ":" + ("short" if len(op[2]) < it["n"] else "exact" if len(op[2]) == it["n"] else "long")
+                    h[key] = h.get(key, 0) + 1
         stats["bad"] = len(bad)
         for k in (len(items) // 3, 2 * len(items) // 3):
             stats["samples"].append(f"[{'debug' if items[k]['mode'] == 0 else 'release'}] {items[k]['line'][:200]} -> {outl[k][:200]}")
